@@ -24,7 +24,7 @@ META = {
     "rule": "states = every gate sequence up to length L over {x,cx,ccx,h,swap,barrier} on 2 and 3 qubits (each circuit once, built through "
             "the real API); circuit_boolean_optimizer(qc) (no preserve list) must return a circuit with the same number of qubits, the same "
             "unitary (state-vector simulator, exact to 1e-9: classical sections leave no phase freedom), no more non-barrier gates, and must "
-            "leave qc's gate list / qubit map untouched; an exception is a violation. Each operand is also given as copy(vanilla=True) of itself, and the result is optimised a second time (same demands). Non-trivial = the circuit has a classical section of "
+            "leave qc's gate list / qubit map untouched; an exception is a violation. Each operand is also given as copy(vanilla=True) of itself, and the result is optimised a second time (same demands); short circuits are also edited in place (last gate replaced, length unchanged) and optimised again on the same object. Non-trivial = the circuit has a classical section of "
             ">= 2 gates; distinct = distinct gate lists.",
     "bound": {"quick": "n=3 L<=4 (137k circuits), n=2 L<=5", "thorough": "n=3 L<=5 (2.6M), n=2 L<=7, n=3 with z/cz separators L<=4"},
     "assumptions": ["svsim (numpy unitary simulator, cross-checked against qiskit's Operator and against bitsim) is the meaning of a circuit"],
@@ -118,6 +118,18 @@ def run_case(case):
                 except Exception:
                     pass
             rows += 6
+            if not p and 1 <= len(seq):
+                # history on ONE object: optimise, replace the last gate by another letter (length unchanged), optimise again
+                for alt in (A[0], A[len(A) // 2]):
+                    if alt == seq[-1]:
+                        continue
+                    qc.gates.pop()
+                    circs.build(qc, [alt])
+                    p = check_circuit(qc, n)
+                    rows += 3
+                    if p:
+                        p = "after replacing the last gate by %s%s on the same circuit object: %s" % (alt[0], list(alt[1:]), p)
+                        break
         if p:
             bad.append({"circuit": circs.text(A, idxs), "n": n, "problem": p})
             if len(bad) >= 50:
